@@ -81,7 +81,7 @@ func codecRoundTrip(s string) string {
 func checkC14(c *harness.Check) {
 	mustAnchors(c)
 	clocks := []int{0, 1, 49, 99, 100, 101, 1<<31 - 1}
-	c.Rule = fmt.Sprintf("(a) every node of the BFS closures and of the castling/e.p./promotion families x half-move clocks %v x full-move numbers %v x both sides to move: the reference FEN decodes and re-encodes to the same string and Decode(Encode(position value)) is the identical struct/side/clocks; (b) every Move/TakeBack sequence to depth n through Engine.Reset/Move/TakeBack from fortress, castling, e.p., promotion and start roots with non-trivial clocks: Engine.Position() equals the reference game's FEN after every operation; (c) the engine set up on four positions x both sides to move x 10 half-move clocks x 7 full-move numbers: reports the FEN it was given, the standard FEN after one move, the given FEN after taking it back. distinct_nontrivial = distinct FEN strings round-tripped", clocks, clocks)
+	c.Rule = fmt.Sprintf("(a) every node of the BFS closures and of the castling/e.p./promotion families x half-move clocks %v x full-move numbers %v x both sides to move: the reference FEN decodes and re-encodes to the same string and Decode(Encode(position value)) is the identical struct/side/clocks; (b) every Move/TakeBack sequence to depth n through Engine.Reset/Move/TakeBack from fortress, castling, e.p., promotion and start roots with non-trivial clocks: Engine.Position() equals the reference game's FEN after every operation; (c) the engine set up on four positions x both sides to move x 19 half-move clocks x 15 full-move numbers (around every integer width): reports the FEN it was given, the standard FEN after one move, the given FEN after taking it back. distinct_nontrivial = distinct FEN strings round-tripped", clocks, clocks)
 	visit := func(n *Node) {
 		for _, white := range []bool{true, false} {
 			q := *n.Ref
@@ -197,8 +197,8 @@ func checkC14(c *harness.Check) {
 	var sets []string
 	for _, body := range []string{"k7/p7/P7/8/8/7p/7P/7K %s - -", "r3k2r/8/8/8/8/8/8/R3K2R %s KQkq -", "rnbqkbnr/pppppppp/8/8/8/8/PPPPPPPP/RNBQKBNR %s KQkq -", "4k3/8/8/8/8/8/8/R3K3 %s Q -"} {
 		for _, side := range []string{"w", "b"} {
-			for _, hm := range []int{0, 1, 2, 3, 49, 79, 98, 99, 100, 101} {
-				for _, fm := range []int{0, 1, 2, 40, 50, 140, 1<<31 - 2} {
+			for _, hm := range []int{0, 1, 2, 3, 49, 79, 98, 99, 100, 101, 127, 128, 149, 255, 256, 32767, 32768, 65535, 65536} {
+				for _, fm := range []int{0, 1, 2, 40, 50, 127, 128, 140, 255, 256, 32767, 32768, 65535, 65536, 1<<31 - 2} {
 					sets = append(sets, fmt.Sprintf(body+" %d %d", side, hm, fm))
 				}
 			}
